@@ -71,3 +71,10 @@ func emptyCollections(op token.Token, a, b AVal) (bool, bool) {
 	}
 	return false, false
 }
+
+func constantInt64(v constant.Value) (int64, bool) {
+	if v == nil || v.Kind() != constant.Int {
+		return 0, false
+	}
+	return constant.Int64Val(v)
+}
